@@ -99,7 +99,7 @@ function familyC (tier, opts = {}) {
       }
     }
   }
-  {
+  if (!opts.noDepth3) {
     // depth 3: representative outer and middle schemas (one per rewriting path); innermost: every schema in
     // the thorough tier, the representatives in the quick tier
     const REP = ['@X@ + @Y@', 'x += @Y@', 'g().p += @Y@', '`p${@X@}q${@Y@}r`', 'a.concat(@X@, @Y@)', '@X@.concat(@Y@)', '@X@?.trim()', 'o?.q.concat(@X@)', 'X.prototype.concat.call(@X@, @Y@)', 'X.prototype.concat.apply(a, [@X@, @Y@])', 'aloneMethod(@X@)', 'a.concat(...@S@)']
@@ -325,6 +325,53 @@ function familyR (tier, opts = {}) {
   return { leaves, stats }
 }
 
+// N: `+` chains. Every sequence of 2..n operands over an operand alphabet, left-nested and right-nested, and as the
+// right side of `+=`
+const N_OPERANDS = ['a', "'l'", '1', 'f()', 'o.p', '-a', 'a * 2', 'i++', "('m' + 'n')", '(b + f())', 'null', '`t${b}`']
+function familyN (tier, opts = {}) {
+  const n = tier === 'thorough' ? 4 : 3
+  const leaves = []
+  const stats = { states: 1, transitions: 0 }
+  const rec = (ops) => {
+    stats.states++
+    if (ops.length >= 2) {
+      const left = ops.join(' + ')
+      const right = ops.slice(0, -1).reduceRight((acc, o) => `${o} + (${acc})`, ops[ops.length - 1])
+      for (const op of ops.length > 2 ? [left, right, 'x += ' + left] : [left, 'x += ' + left]) leaves.push(mkLeaf('N', { op, opkind: 'plus' }))
+    }
+    if (ops.length === n) return
+    for (const o of N_OPERANDS) { stats.transitions++; rec(ops.concat([o])) }
+  }
+  rec([])
+  return { leaves, stats }
+}
+
+// L: template literals. Every sequence of 1..n substitutions over a substitution alphabet x quasi texts x tagged or not
+const L_SUBST = ['a', "'l'", '1', 'f()', 'a + b', '`${b}`', 's?.trim()', 'null', "'l' + 'm'"]
+const L_QUASIS = { empty: () => '', text: (i) => 'q' + i, newline: () => '\n', escaped: () => '\\n\\u00f1\\`' }
+function familyL (tier, opts = {}) {
+  const n = tier === 'thorough' ? 4 : 3
+  const leaves = []
+  const stats = { states: 1, transitions: 0 }
+  const rec = (subs) => {
+    stats.states++
+    if (subs.length >= 1) {
+      for (const [qn, q] of Object.entries(L_QUASIS)) {
+        if (tier !== 'thorough' && qn !== 'empty' && qn !== 'text' && subs.length > 2) continue
+        let t = '`' + q(0)
+        subs.forEach((sx, i) => { t += '${' + sx + '}' + q(i + 1) })
+        t += '`'
+        leaves.push(mkLeaf('L', { op: t, opkind: 'tpl' }))
+        if (qn === 'text' && subs.length <= 2) { leaves.push(mkLeaf('L', { op: 'h' + t, opkind: 'tpl' })); leaves.push(mkLeaf('L', { op: t + '.length', opkind: 'tpl' })); leaves.push(mkLeaf('L', { op: t + '.concat(a)', opkind: 'tpl' })) }
+      }
+    }
+    if (subs.length === n) return
+    for (const sx of L_SUBST) { stats.transitions++; rec(subs.concat([sx])) }
+  }
+  rec([])
+  return { leaves, stats }
+}
+
 // P: operations whose operands are `+` expressions, under configurations with the plus operator DISABLED
 // (the operand is then not turned into a hook call by the child-first traversal)
 function familyP (tier, opts = {}) {
@@ -343,7 +390,7 @@ function familyP (tier, opts = {}) {
 function all (tier, opts = {}) {
   let leaves = []
   let stats = { states: 1, transitions: 0 }
-  const fams = { A: familyA, B: familyB, C: familyC, G: familyG, M: familyM, S: familyS, P: familyP, T: familyT, H: familyH, Q: familyQ, R: familyR }
+  const fams = { A: familyA, B: familyB, C: familyC, G: familyG, M: familyM, S: familyS, P: familyP, T: familyT, H: familyH, Q: familyQ, R: familyR, N: familyN, L: familyL }
   for (const f of (opts.families || ['A', 'B', 'C', 'G'])) {
     const r = fams[f](tier, opts[f] || {})
     leaves = leaves.concat(r.leaves)
@@ -356,4 +403,4 @@ function all (tier, opts = {}) {
   return { leaves: uniq, stats }
 }
 
-module.exports = { familyH, familyQ, familyR, familyT, familyP, familyA, familyB, familyC, familyG, familyM, familyS, M_FNS, S_STMTS, all, REP_OPS, REP_OPS_Q, CONFIGS, mkLeaf }
+module.exports = { familyN, familyL, familyH, familyQ, familyR, familyT, familyP, familyA, familyB, familyC, familyG, familyM, familyS, M_FNS, S_STMTS, all, REP_OPS, REP_OPS_Q, CONFIGS, mkLeaf }
